@@ -10,21 +10,35 @@ connections the thread owns at that moment (which is the invariant `Excl` proved
 observable; the schedule controller of the harness forces exactly these transitions on the
 real pools.
 
-The peer is part of the state: every connection carries the peer's plan for it (`dropAfter` —
-silently close after that many accepted messages; `rejectRcpt` — refuse the recipient of that
-transaction) and the history the peer has seen on it.
+The peer is part of the state: every connection carries the peer's plan for it (`Plan`) and the
+history the peer has seen on it.
 -/
 namespace LV.PoolLts
 
 /-- what the peer sees on one connection -/
 inductive SEv
-  | ehlo | noop | mail (sender : Nat) | rcpt | rcptRej | data | commit (sender msg : Nat)
+  | ehlo | noop | mail (sender : Nat) | rcpt | rcptRej | rcptTemp | data | commit (sender msg : Nat)
   | quit | eof | kill
+deriving DecidableEq, Repr
+
+/-- the peer's plan for one connection: silently close after that many accepted messages (0 = right after EHLO);
+    refuse the recipient of that transaction with 550 / with 450; answer that NOOP with `421` and close; answer that
+    NOOP only after the client's read timeout has passed -/
+structure Plan where
+  dropAfter : Option Nat := none
+  rejectRcpt : Option Nat := none
+  tempRcpt : Option Nat := none
+  noop421 : Option Nat := none
+  slowNoop : Option Nat := none
 deriving DecidableEq, Repr
 
 structure Conn where
   dropAfter : Option Nat := none
   rejectRcpt : Option Nat := none
+  tempRcpt : Option Nat := none
+  noop421 : Option Nat := none
+  slowNoop : Option Nat := none
+  noops : Nat := 0
   peerAlive : Bool := true      -- the peer has not closed it
   closed : Bool := false        -- the client has closed it
   broken : Bool := false        -- `panic`: set by abort(); never parked again
@@ -33,7 +47,7 @@ structure Conn where
   hist : List SEv := []         -- most recent first
 deriving DecidableEq, Repr
 
-inductive Res | ok | perm | err | shutdown
+inductive Res | ok | perm | trans | err | shutdown
 deriving DecidableEq, Repr
 
 /-- a sender: which of its sends is next, whether it holds a connection waiting to return it -/
@@ -57,7 +71,7 @@ structure St where
   sends : Nat                              -- sends per sender
   idle : Option (List (Nat × Bool))        -- parked (connection, expired), most recent first; none = shut down
   conns : List Conn                        -- every connection ever opened, by order of opening
-  plans : List (Option Nat × Option Nat)   -- the peer's plan for the connections still to come
+  plans : List Plan                        -- the peer's plan for the connections still to come
   senders : List Sender
   recyclers : List (Option Nat)            -- async: pending returns, in order of creation
   maint : MPc
@@ -98,20 +112,26 @@ def dropConn (k : Conn) : Conn :=
 
 /-- a new connection: greeting + EHLO; the peer may close right away (`dropAfter = 0`) -/
 def openConn (s : St) : St × Nat :=
-  let (d, r) := s.plans.headD (none, none)
-  let k : Conn := { dropAfter := d, rejectRcpt := r, hist := [.ehlo] }
-  let k := if d == some 0 then { say k .kill with peerAlive := false } else k
+  let pl := s.plans.headD {}
+  let k : Conn := { dropAfter := pl.dropAfter, rejectRcpt := pl.rejectRcpt, tempRcpt := pl.tempRcpt, noop421 := pl.noop421,
+                    slowNoop := pl.slowNoop, hist := [.ehlo] }
+  let k := if pl.dropAfter == some 0 then { say k .kill with peerAlive := false } else k
   ({ s with conns := s.conns ++ [k], plans := s.plans.tail }, s.conns.length)
 
-/-- NOOP probe: the connection and whether it answered -/
+/-- NOOP probe: the connection and whether it answered in time with a positive reply -/
 def probe (k : Conn) : Conn × Bool :=
-  if k.peerAlive then (say k .noop, true) else (k, false)
+  if !k.peerAlive then (k, false) else
+  let k := { say k .noop with noops := k.noops + 1 }
+  if k.noop421 == some k.noops then ({ say k .kill with peerAlive := false }, false)
+  else if k.slowNoop == some k.noops then (k, false)
+  else (k, true)
 
 /-- one transaction of sender `i`, message `m` on `k`: the connection afterwards and the result -/
 def transact (k : Conn) (i m : Nat) : Conn × Res :=
   if !k.peerAlive then (abortConn k, .err) else
   let k := { say k (.mail i) with txns := k.txns + 1 }
   if k.rejectRcpt == some k.txns then (abortConn (say k .rcptRej), .perm) else
+  if k.tempRcpt == some k.txns then (abortConn (say k .rcptTemp), .trans) else
   let k := say (say (say k .rcpt) .data) (.commit i m)
   let k := { k with commits := k.commits + 1 }
   if k.dropAfter == some k.commits then ({ say k .kill with peerAlive := false }, .ok) else (k, .ok)
@@ -253,7 +273,7 @@ def finish (s : St) : St :=
   | none => s
   | some l => l.foldl (fun s p => updConn s p.1 abortConn) { s with idle := some [] }
 
-def init (isAsync : Bool) (maxSize minIdle sends nSenders : Nat) (plans : List (Option Nat × Option Nat)) : St :=
+def init (isAsync : Bool) (maxSize minIdle sends nSenders : Nat) (plans : List Plan) : St :=
   { isAsync, maxSize, minIdle, sends, idle := some [], conns := [], plans,
     senders := List.replicate nSenders {}, recyclers := [], maint := .scan }
 
